@@ -59,7 +59,9 @@ def run_case(ctx, res, spec, nconf):
     last_out = sorted(test_set[1])[0]      # the most upstream output: a learner that only looked at it would neglect the rest
     test_subset = (test_set[0], {last_out: test_set[1][last_out]})
 
-    def train(opts):
+    errs_box = []
+
+    def train(opts, max_tol=-np.inf, max_iter=None):
         tmp = None
         root = None
         tmplog = None
@@ -80,12 +82,13 @@ def run_case(ctx, res, spec, nconf):
             undo = watch_monitors(system, xprobe, res, {'spec': spec, 'options': opts}) if opts.get('watch') else (lambda: None)
             with contextlib.redirect_stdout(buf), contextlib.redirect_stderr(buf):
                 try:
-                        system.fit(max_iter=steps, num_refine=30, max_tol=-np.inf,
+                        system.fit(max_iter=max_iter or steps, num_refine=30, max_tol=max_tol,
                                test_set=(test_subset if opts['test_set'] == 'subset' else test_set) if opts['test_set'] else None,
                                save_interval=opts['save'],
                                plot_interval=opts['plot'], start_test_check=opts.get('start', None))
                 finally:
                     undo()
+            errs_box[:] = [float(h['added_error']) for h in system.train_history]
             return learned(system, xprobe), rng_digest()
         finally:
             import logging, os
@@ -119,6 +122,24 @@ def run_case(ctx, res, spec, nconf):
         res.hit('option-combination')
         for k, v in opts.items():
             res.hit(f'{k}={v}')
+    # tolerance-terminated training: the iteration at which the error indicator crosses max_tol must not depend on monitoring
+    train(ref_opts, max_iter=steps + 5)
+    errs = [e for e in errs_box if np.isfinite(e) and e > 0]
+    if len(errs) >= 4:
+        srt = sorted(errs)
+        tol = float(np.sqrt(srt[len(srt) // 2 - 1] * srt[len(srt) // 2]))      # between two recorded indicators: no ties
+        ref_t = train(ref_opts, max_tol=tol, max_iter=steps + 5)
+        n_ref = len(errs_box)
+        for opts in (must[0], {'test_set': True, 'save': 0, 'plot': 0, 'root': True, 'log': 'none', 'start': 1},
+                     {'test_set': True, 'save': 2, 'plot': 3, 'root': True, 'log': 'file'}):
+            got = train(opts, max_tol=tol, max_iter=steps + 5)
+            if got[0] != ref_t[0] or got[1] != ref_t[1]:
+                res.failures.append({'kind': 'monitoring-option-changed-when-tolerance-terminated-training-stops',
+                                     'input': {'spec': spec, 'options': opts, 'max_tol': tol, 'max_iter': steps + 5},
+                                     'observed': {'iterations': len(errs_box)}, 'expected': {'iterations': n_ref}})
+            res.hit('tolerance-terminated-combination')
+        if n_ref < steps + 5:
+            res.hit('tolerance-stopped-before-max_iter')
     res.case(('c19', str(spec)), True, {'spec': spec, 'steps': steps, 'combinations': nconf})
     # effect-table validation on the real code
     system = sc.build_system(spec)
